@@ -78,48 +78,70 @@ Inductive phase :=
 | Rendering (width height : Z) (rows : list item) (nrows popcount : Z) (pushes : list (Z * bool)).
 
 Record cst := mkC {
-  bars : list (Z * brec);
-  heap : list Z;                 (* members of the heap manager's heap *)
-  hsync : bool; hlen : Z;        (* heap manager's (sync, len) cache *)
-  hdirty : bool;                 (* heap order broken by a lazy fix *)
-  iterating : bool;              (* ordered iteration in progress *)
-  popped : list Z;               (* popped in this iteration, most recent first, not yet flushed *)
-  fifo : list qreq;              (* sent by the container, not yet received by the heap manager *)
-  queue : list (Z * Z);          (* queueBars: predecessor ↦ successor *)
+  bars : list (Z * brec);   (* every bar ever added, by serial *)
+  heap : list Z;   (* members of the heap manager's heap *)
+  hsync : bool;   (* heap manager's sync flag *)
+  hlen : Z;   (* heap manager's cached length *)
+  hdirty : bool;   (* heap order broken by a lazy fix *)
+  iterating : bool;   (* ordered iteration in progress *)
+  popped : list Z;   (* popped, not yet received by flush (oldest first) *)
+  fifo : list qreq;   (* sent by the container, not yet received by the heap manager *)
+  queue : list (Z * Z);   (* queueBars: predecessor -> successor *)
   pop_prio : Z;
   id_count : Z;
   pop_mode : bool;
   auto_mode : bool;
-  ph : phase;
-  cwbuf : list item;             (* buffer of the writer in use *)
-  delayed : bool;                (* render delay pending: the writer in use discards *)
-  pend_writes : list (Z * Z * Z);(* client writes invoked, closure not yet run: (writer, seq, lines) *)
-  pend_fix : list (Z * Z * bool);(* UpdateBarPriority invoked, request not yet at the heap manager *)
-  frames : list (list item);     (* what reached the output, one entry per Write call, newest first *)
-  cancelled : bool;              (* container context cancelled *)
-  done_seen : bool;              (* container goroutine saw done *)
-  ended : bool;                  (* heap manager got the end request *)
-  errored : bool                 (* a render error is latched *)
+  ph : phase;   (* what the container goroutine is doing *)
+  cwbuf : list item;   (* buffer of the writer in use *)
+  delayed : bool;   (* render delay pending: the writer in use discards *)
+  pend_writes : list (Z * Z * Z);   (* client writes invoked, closure not yet run *)
+  pend_fix : list (Z * Z * bool);   (* UpdateBarPriority invoked, request not yet at the heap manager *)
+  outframes : list (list item);   (* what reached the output, one entry per Write call, newest first *)
+  cancelled : bool;   (* container context cancelled *)
+  done_seen : bool;   (* container goroutine saw done *)
+  ended : bool;   (* heap manager got the end request *)
+  errored : bool;   (* a render error is latched *)
+  cycle_pops : list (Z * Z);   (* GHOST: (bar, priority) popped in the current/last ordered iteration, oldest first *)
+  cycle_flushed : list Z;   (* GHOST: bars flushed in the current/last cycle, oldest first *)
+  iter_heap : list Z;   (* GHOST: heap when the ordered iteration began *)
+  iter_dirty : bool;   (* GHOST: heap order was broken when the ordered iteration began *)
+  retired : list Z   (* GHOST: bars that left the display for good *)
 }.
 
+Definition cs_bars (s : cst) v : cst := mkC v (heap s) (hsync s) (hlen s) (hdirty s) (iterating s) (popped s) (fifo s) (queue s) (pop_prio s) (id_count s) (pop_mode s) (auto_mode s) (ph s) (cwbuf s) (delayed s) (pend_writes s) (pend_fix s) (outframes s) (cancelled s) (done_seen s) (ended s) (errored s) (cycle_pops s) (cycle_flushed s) (iter_heap s) (iter_dirty s) (retired s).
+Definition cs_heap (s : cst) v : cst := mkC (bars s) v (hsync s) (hlen s) (hdirty s) (iterating s) (popped s) (fifo s) (queue s) (pop_prio s) (id_count s) (pop_mode s) (auto_mode s) (ph s) (cwbuf s) (delayed s) (pend_writes s) (pend_fix s) (outframes s) (cancelled s) (done_seen s) (ended s) (errored s) (cycle_pops s) (cycle_flushed s) (iter_heap s) (iter_dirty s) (retired s).
+Definition cs_hsync (s : cst) v : cst := mkC (bars s) (heap s) v (hlen s) (hdirty s) (iterating s) (popped s) (fifo s) (queue s) (pop_prio s) (id_count s) (pop_mode s) (auto_mode s) (ph s) (cwbuf s) (delayed s) (pend_writes s) (pend_fix s) (outframes s) (cancelled s) (done_seen s) (ended s) (errored s) (cycle_pops s) (cycle_flushed s) (iter_heap s) (iter_dirty s) (retired s).
+Definition cs_hlen (s : cst) v : cst := mkC (bars s) (heap s) (hsync s) v (hdirty s) (iterating s) (popped s) (fifo s) (queue s) (pop_prio s) (id_count s) (pop_mode s) (auto_mode s) (ph s) (cwbuf s) (delayed s) (pend_writes s) (pend_fix s) (outframes s) (cancelled s) (done_seen s) (ended s) (errored s) (cycle_pops s) (cycle_flushed s) (iter_heap s) (iter_dirty s) (retired s).
+Definition cs_hdirty (s : cst) v : cst := mkC (bars s) (heap s) (hsync s) (hlen s) v (iterating s) (popped s) (fifo s) (queue s) (pop_prio s) (id_count s) (pop_mode s) (auto_mode s) (ph s) (cwbuf s) (delayed s) (pend_writes s) (pend_fix s) (outframes s) (cancelled s) (done_seen s) (ended s) (errored s) (cycle_pops s) (cycle_flushed s) (iter_heap s) (iter_dirty s) (retired s).
+Definition cs_iterating (s : cst) v : cst := mkC (bars s) (heap s) (hsync s) (hlen s) (hdirty s) v (popped s) (fifo s) (queue s) (pop_prio s) (id_count s) (pop_mode s) (auto_mode s) (ph s) (cwbuf s) (delayed s) (pend_writes s) (pend_fix s) (outframes s) (cancelled s) (done_seen s) (ended s) (errored s) (cycle_pops s) (cycle_flushed s) (iter_heap s) (iter_dirty s) (retired s).
+Definition cs_popped (s : cst) v : cst := mkC (bars s) (heap s) (hsync s) (hlen s) (hdirty s) (iterating s) v (fifo s) (queue s) (pop_prio s) (id_count s) (pop_mode s) (auto_mode s) (ph s) (cwbuf s) (delayed s) (pend_writes s) (pend_fix s) (outframes s) (cancelled s) (done_seen s) (ended s) (errored s) (cycle_pops s) (cycle_flushed s) (iter_heap s) (iter_dirty s) (retired s).
+Definition cs_fifo (s : cst) v : cst := mkC (bars s) (heap s) (hsync s) (hlen s) (hdirty s) (iterating s) (popped s) v (queue s) (pop_prio s) (id_count s) (pop_mode s) (auto_mode s) (ph s) (cwbuf s) (delayed s) (pend_writes s) (pend_fix s) (outframes s) (cancelled s) (done_seen s) (ended s) (errored s) (cycle_pops s) (cycle_flushed s) (iter_heap s) (iter_dirty s) (retired s).
+Definition cs_queue (s : cst) v : cst := mkC (bars s) (heap s) (hsync s) (hlen s) (hdirty s) (iterating s) (popped s) (fifo s) v (pop_prio s) (id_count s) (pop_mode s) (auto_mode s) (ph s) (cwbuf s) (delayed s) (pend_writes s) (pend_fix s) (outframes s) (cancelled s) (done_seen s) (ended s) (errored s) (cycle_pops s) (cycle_flushed s) (iter_heap s) (iter_dirty s) (retired s).
+Definition cs_pop_prio (s : cst) v : cst := mkC (bars s) (heap s) (hsync s) (hlen s) (hdirty s) (iterating s) (popped s) (fifo s) (queue s) v (id_count s) (pop_mode s) (auto_mode s) (ph s) (cwbuf s) (delayed s) (pend_writes s) (pend_fix s) (outframes s) (cancelled s) (done_seen s) (ended s) (errored s) (cycle_pops s) (cycle_flushed s) (iter_heap s) (iter_dirty s) (retired s).
+Definition cs_id_count (s : cst) v : cst := mkC (bars s) (heap s) (hsync s) (hlen s) (hdirty s) (iterating s) (popped s) (fifo s) (queue s) (pop_prio s) v (pop_mode s) (auto_mode s) (ph s) (cwbuf s) (delayed s) (pend_writes s) (pend_fix s) (outframes s) (cancelled s) (done_seen s) (ended s) (errored s) (cycle_pops s) (cycle_flushed s) (iter_heap s) (iter_dirty s) (retired s).
+Definition cs_pop_mode (s : cst) v : cst := mkC (bars s) (heap s) (hsync s) (hlen s) (hdirty s) (iterating s) (popped s) (fifo s) (queue s) (pop_prio s) (id_count s) v (auto_mode s) (ph s) (cwbuf s) (delayed s) (pend_writes s) (pend_fix s) (outframes s) (cancelled s) (done_seen s) (ended s) (errored s) (cycle_pops s) (cycle_flushed s) (iter_heap s) (iter_dirty s) (retired s).
+Definition cs_auto_mode (s : cst) v : cst := mkC (bars s) (heap s) (hsync s) (hlen s) (hdirty s) (iterating s) (popped s) (fifo s) (queue s) (pop_prio s) (id_count s) (pop_mode s) v (ph s) (cwbuf s) (delayed s) (pend_writes s) (pend_fix s) (outframes s) (cancelled s) (done_seen s) (ended s) (errored s) (cycle_pops s) (cycle_flushed s) (iter_heap s) (iter_dirty s) (retired s).
+Definition cs_ph (s : cst) v : cst := mkC (bars s) (heap s) (hsync s) (hlen s) (hdirty s) (iterating s) (popped s) (fifo s) (queue s) (pop_prio s) (id_count s) (pop_mode s) (auto_mode s) v (cwbuf s) (delayed s) (pend_writes s) (pend_fix s) (outframes s) (cancelled s) (done_seen s) (ended s) (errored s) (cycle_pops s) (cycle_flushed s) (iter_heap s) (iter_dirty s) (retired s).
+Definition cs_cwbuf (s : cst) v : cst := mkC (bars s) (heap s) (hsync s) (hlen s) (hdirty s) (iterating s) (popped s) (fifo s) (queue s) (pop_prio s) (id_count s) (pop_mode s) (auto_mode s) (ph s) v (delayed s) (pend_writes s) (pend_fix s) (outframes s) (cancelled s) (done_seen s) (ended s) (errored s) (cycle_pops s) (cycle_flushed s) (iter_heap s) (iter_dirty s) (retired s).
+Definition cs_delayed (s : cst) v : cst := mkC (bars s) (heap s) (hsync s) (hlen s) (hdirty s) (iterating s) (popped s) (fifo s) (queue s) (pop_prio s) (id_count s) (pop_mode s) (auto_mode s) (ph s) (cwbuf s) v (pend_writes s) (pend_fix s) (outframes s) (cancelled s) (done_seen s) (ended s) (errored s) (cycle_pops s) (cycle_flushed s) (iter_heap s) (iter_dirty s) (retired s).
+Definition cs_pend_writes (s : cst) v : cst := mkC (bars s) (heap s) (hsync s) (hlen s) (hdirty s) (iterating s) (popped s) (fifo s) (queue s) (pop_prio s) (id_count s) (pop_mode s) (auto_mode s) (ph s) (cwbuf s) (delayed s) v (pend_fix s) (outframes s) (cancelled s) (done_seen s) (ended s) (errored s) (cycle_pops s) (cycle_flushed s) (iter_heap s) (iter_dirty s) (retired s).
+Definition cs_pend_fix (s : cst) v : cst := mkC (bars s) (heap s) (hsync s) (hlen s) (hdirty s) (iterating s) (popped s) (fifo s) (queue s) (pop_prio s) (id_count s) (pop_mode s) (auto_mode s) (ph s) (cwbuf s) (delayed s) (pend_writes s) v (outframes s) (cancelled s) (done_seen s) (ended s) (errored s) (cycle_pops s) (cycle_flushed s) (iter_heap s) (iter_dirty s) (retired s).
+Definition cs_outframes (s : cst) v : cst := mkC (bars s) (heap s) (hsync s) (hlen s) (hdirty s) (iterating s) (popped s) (fifo s) (queue s) (pop_prio s) (id_count s) (pop_mode s) (auto_mode s) (ph s) (cwbuf s) (delayed s) (pend_writes s) (pend_fix s) v (cancelled s) (done_seen s) (ended s) (errored s) (cycle_pops s) (cycle_flushed s) (iter_heap s) (iter_dirty s) (retired s).
+Definition cs_cancelled (s : cst) v : cst := mkC (bars s) (heap s) (hsync s) (hlen s) (hdirty s) (iterating s) (popped s) (fifo s) (queue s) (pop_prio s) (id_count s) (pop_mode s) (auto_mode s) (ph s) (cwbuf s) (delayed s) (pend_writes s) (pend_fix s) (outframes s) v (done_seen s) (ended s) (errored s) (cycle_pops s) (cycle_flushed s) (iter_heap s) (iter_dirty s) (retired s).
+Definition cs_done_seen (s : cst) v : cst := mkC (bars s) (heap s) (hsync s) (hlen s) (hdirty s) (iterating s) (popped s) (fifo s) (queue s) (pop_prio s) (id_count s) (pop_mode s) (auto_mode s) (ph s) (cwbuf s) (delayed s) (pend_writes s) (pend_fix s) (outframes s) (cancelled s) v (ended s) (errored s) (cycle_pops s) (cycle_flushed s) (iter_heap s) (iter_dirty s) (retired s).
+Definition cs_ended (s : cst) v : cst := mkC (bars s) (heap s) (hsync s) (hlen s) (hdirty s) (iterating s) (popped s) (fifo s) (queue s) (pop_prio s) (id_count s) (pop_mode s) (auto_mode s) (ph s) (cwbuf s) (delayed s) (pend_writes s) (pend_fix s) (outframes s) (cancelled s) (done_seen s) v (errored s) (cycle_pops s) (cycle_flushed s) (iter_heap s) (iter_dirty s) (retired s).
+Definition cs_errored (s : cst) v : cst := mkC (bars s) (heap s) (hsync s) (hlen s) (hdirty s) (iterating s) (popped s) (fifo s) (queue s) (pop_prio s) (id_count s) (pop_mode s) (auto_mode s) (ph s) (cwbuf s) (delayed s) (pend_writes s) (pend_fix s) (outframes s) (cancelled s) (done_seen s) (ended s) v (cycle_pops s) (cycle_flushed s) (iter_heap s) (iter_dirty s) (retired s).
+Definition cs_cycle_pops (s : cst) v : cst := mkC (bars s) (heap s) (hsync s) (hlen s) (hdirty s) (iterating s) (popped s) (fifo s) (queue s) (pop_prio s) (id_count s) (pop_mode s) (auto_mode s) (ph s) (cwbuf s) (delayed s) (pend_writes s) (pend_fix s) (outframes s) (cancelled s) (done_seen s) (ended s) (errored s) v (cycle_flushed s) (iter_heap s) (iter_dirty s) (retired s).
+Definition cs_cycle_flushed (s : cst) v : cst := mkC (bars s) (heap s) (hsync s) (hlen s) (hdirty s) (iterating s) (popped s) (fifo s) (queue s) (pop_prio s) (id_count s) (pop_mode s) (auto_mode s) (ph s) (cwbuf s) (delayed s) (pend_writes s) (pend_fix s) (outframes s) (cancelled s) (done_seen s) (ended s) (errored s) (cycle_pops s) v (iter_heap s) (iter_dirty s) (retired s).
+Definition cs_iter_heap (s : cst) v : cst := mkC (bars s) (heap s) (hsync s) (hlen s) (hdirty s) (iterating s) (popped s) (fifo s) (queue s) (pop_prio s) (id_count s) (pop_mode s) (auto_mode s) (ph s) (cwbuf s) (delayed s) (pend_writes s) (pend_fix s) (outframes s) (cancelled s) (done_seen s) (ended s) (errored s) (cycle_pops s) (cycle_flushed s) v (iter_dirty s) (retired s).
+Definition cs_iter_dirty (s : cst) v : cst := mkC (bars s) (heap s) (hsync s) (hlen s) (hdirty s) (iterating s) (popped s) (fifo s) (queue s) (pop_prio s) (id_count s) (pop_mode s) (auto_mode s) (ph s) (cwbuf s) (delayed s) (pend_writes s) (pend_fix s) (outframes s) (cancelled s) (done_seen s) (ended s) (errored s) (cycle_pops s) (cycle_flushed s) (iter_heap s) v (retired s).
+Definition cs_retired (s : cst) v : cst := mkC (bars s) (heap s) (hsync s) (hlen s) (hdirty s) (iterating s) (popped s) (fifo s) (queue s) (pop_prio s) (id_count s) (pop_mode s) (auto_mode s) (ph s) (cwbuf s) (delayed s) (pend_writes s) (pend_fix s) (outframes s) (cancelled s) (done_seen s) (ended s) (errored s) (cycle_pops s) (cycle_flushed s) (iter_heap s) (iter_dirty s) v.
+
 Definition init_cst (popm autom delay : bool) : cst :=
-  mkC [] [] false 0 false false [] [] [] (-2147483648) 0 popm autom Idle [] delay [] [] [] false false false false.
+  mkC [] [] false 0 false false [] [] [] (-2147483648) 0 popm autom Idle [] delay [] [] [] false false false false
+      [] [] [] false [].
 
-(* record update helpers (one per field that changes) *)
-Definition with_bars s v := mkC v (heap s) (hsync s) (hlen s) (hdirty s) (iterating s) (popped s) (fifo s) (queue s) (pop_prio s) (id_count s) (pop_mode s) (auto_mode s) (ph s) (cwbuf s) (delayed s) (pend_writes s) (pend_fix s) (frames s) (cancelled s) (done_seen s) (ended s) (errored s).
-Definition with_hm s hp sy ln di it po := mkC (bars s) hp sy ln di it po (fifo s) (queue s) (pop_prio s) (id_count s) (pop_mode s) (auto_mode s) (ph s) (cwbuf s) (delayed s) (pend_writes s) (pend_fix s) (frames s) (cancelled s) (done_seen s) (ended s) (errored s).
-Definition with_fifo s v := mkC (bars s) (heap s) (hsync s) (hlen s) (hdirty s) (iterating s) (popped s) v (queue s) (pop_prio s) (id_count s) (pop_mode s) (auto_mode s) (ph s) (cwbuf s) (delayed s) (pend_writes s) (pend_fix s) (frames s) (cancelled s) (done_seen s) (ended s) (errored s).
-Definition with_queue s v := mkC (bars s) (heap s) (hsync s) (hlen s) (hdirty s) (iterating s) (popped s) (fifo s) v (pop_prio s) (id_count s) (pop_mode s) (auto_mode s) (ph s) (cwbuf s) (delayed s) (pend_writes s) (pend_fix s) (frames s) (cancelled s) (done_seen s) (ended s) (errored s).
-Definition with_popprio s v := mkC (bars s) (heap s) (hsync s) (hlen s) (hdirty s) (iterating s) (popped s) (fifo s) (queue s) v (id_count s) (pop_mode s) (auto_mode s) (ph s) (cwbuf s) (delayed s) (pend_writes s) (pend_fix s) (frames s) (cancelled s) (done_seen s) (ended s) (errored s).
-Definition with_idcount s v := mkC (bars s) (heap s) (hsync s) (hlen s) (hdirty s) (iterating s) (popped s) (fifo s) (queue s) (pop_prio s) v (pop_mode s) (auto_mode s) (ph s) (cwbuf s) (delayed s) (pend_writes s) (pend_fix s) (frames s) (cancelled s) (done_seen s) (ended s) (errored s).
-Definition with_ph s v := mkC (bars s) (heap s) (hsync s) (hlen s) (hdirty s) (iterating s) (popped s) (fifo s) (queue s) (pop_prio s) (id_count s) (pop_mode s) (auto_mode s) v (cwbuf s) (delayed s) (pend_writes s) (pend_fix s) (frames s) (cancelled s) (done_seen s) (ended s) (errored s).
-Definition with_cw s buf dl := mkC (bars s) (heap s) (hsync s) (hlen s) (hdirty s) (iterating s) (popped s) (fifo s) (queue s) (pop_prio s) (id_count s) (pop_mode s) (auto_mode s) (ph s) buf dl (pend_writes s) (pend_fix s) (frames s) (cancelled s) (done_seen s) (ended s) (errored s).
-Definition with_pend_writes s v := mkC (bars s) (heap s) (hsync s) (hlen s) (hdirty s) (iterating s) (popped s) (fifo s) (queue s) (pop_prio s) (id_count s) (pop_mode s) (auto_mode s) (ph s) (cwbuf s) (delayed s) v (pend_fix s) (frames s) (cancelled s) (done_seen s) (ended s) (errored s).
-Definition with_pend_fix s v := mkC (bars s) (heap s) (hsync s) (hlen s) (hdirty s) (iterating s) (popped s) (fifo s) (queue s) (pop_prio s) (id_count s) (pop_mode s) (auto_mode s) (ph s) (cwbuf s) (delayed s) (pend_writes s) v (frames s) (cancelled s) (done_seen s) (ended s) (errored s).
-Definition with_frames s v := mkC (bars s) (heap s) (hsync s) (hlen s) (hdirty s) (iterating s) (popped s) (fifo s) (queue s) (pop_prio s) (id_count s) (pop_mode s) (auto_mode s) (ph s) (cwbuf s) (delayed s) (pend_writes s) (pend_fix s) v (cancelled s) (done_seen s) (ended s) (errored s).
-Definition with_flags s ca dn en er := mkC (bars s) (heap s) (hsync s) (hlen s) (hdirty s) (iterating s) (popped s) (fifo s) (queue s) (pop_prio s) (id_count s) (pop_mode s) (auto_mode s) (ph s) (cwbuf s) (delayed s) (pend_writes s) (pend_fix s) (frames s) ca dn en er.
-
-Definition upd_bar (s : cst) (b : Z) (r : brec) : cst := with_bars s (update b r (bars s)).
+Definition upd_bar (s : cst) (b : Z) (r : brec) : cst := cs_bars s (update b r (bars s)).
 
 (* ---------- events ---------- *)
 Inductive ev :=
@@ -238,7 +260,7 @@ Fixpoint items_eqb (a b : list item) : bool :=
 
 Definition fifo_pop (s : cst) (want : qreq -> bool) : option cst :=
   match fifo s with
-  | q :: rest => if want q then Some (with_fifo s rest) else None
+  | q :: rest => if want q then Some (cs_fifo s rest) else None
   | [] => None
   end.
 
@@ -254,6 +276,9 @@ Fixpoint replace_last_op (l : list qreq) (by_ : list qreq) : option (list qreq) 
   | x :: r => match replace_last_op r by_ with Some r' => Some (x :: r') | None => None end
   end.
 
+Definition is_idle (s : cst) : bool := match ph s with Idle => true | _ => false end.
+Definition nil_b {A} (l : list A) : bool := match l with [] => true | _ => false end.
+
 Definition step (s : cst) (e : ev) : option cst :=
   match e with
   (* ---- client ---- *)
@@ -262,177 +287,177 @@ Definition step (s : cst) (e : ev) : option cst :=
       | Some r => Some (upd_bar s b (set_pending r (br_pending r ++ [o])))
       | None => None
       end
-  | CL_PRIO b p lazy => Some (with_pend_fix s (pend_fix s ++ [(b, p, lazy)]))
-  | CL_WRITE w seq lines => Some (with_pend_writes s (pend_writes s ++ [(w, seq, lines)]))
-  | CL_CANCEL => Some (with_flags s true (done_seen s) (ended s) (errored s))
-  (* ---- container ---- *)
-  | CT_OP => Some (with_fifo s (fifo s ++ [QOp]))
+  | CL_PRIO b p lazy => Some (cs_pend_fix s (pend_fix s ++ [(b, p, lazy)]))
+  | CL_WRITE w seq lines => Some (cs_pend_writes s (pend_writes s ++ [(w, seq, lines)]))
+  | CL_CANCEL => Some (cs_cancelled s true)
+  (* ---- container goroutine: one thing at a time ---- *)
+  | CT_OP => if is_idle s then Some (cs_fifo s (fifo s ++ [QOp])) else None
   | CT_ADD b id prio tot explicit after rmf np tr xr xv =>
       match lookup b (bars s) with
       | Some _ => None
       | None =>
         (* makeBarState: id and priority default to idCount; triggerComplete = total > 0 *)
-        if Bool.eqb tr (0 <? tot) && (id =? id_count s) &&
+        if is_idle s && Bool.eqb tr (0 <? tot) && (id =? id_count s) &&
            (prio =? match explicit with Some p => p | None => id_count s end) then
           let st := binit tot (auto_mode s) rmf np in
           let r := mkBR st prio xr xv None [] false in
-          let s1 := with_idcount (upd_bar s b r) (id_count s + 1) in
+          let s1 := cs_id_count (upd_bar s b r) (id_count s + 1) in
           match after with
-          | Some a =>   (* parked behind a: the closure sends nothing *)
+          | Some a =>   (* parked behind a: the closure sends nothing; an earlier successor of a is overwritten *)
               match replace_last_op (fifo s1) [] with
-              | Some f => Some (with_queue (with_fifo s1 f) (update a b (queue s1)))
+              | Some f => Some (cs_queue (cs_fifo s1 f) (update a b (queue s1)))
               | None => None
               end
           | None =>
               match replace_last_op (fifo s1) [QPush b true] with
-              | Some f => Some (with_fifo s1 f)
+              | Some f => Some (cs_fifo s1 f)
               | None => None
               end
           end
         else None
       end
   | CT_IO =>
+      if negb (is_idle s) then None else
       match pend_writes s with
       | (w, seq, lines) :: rest =>
-          Some (with_pend_writes (with_cw s (cwbuf s ++ text_items w seq 0 (Z.to_nat lines)) (delayed s)) rest)
+          Some (cs_pend_writes (cs_cwbuf s (cwbuf s ++ text_items w seq 0 (Z.to_nat lines))) rest)
       | [] => Some s     (* the harness's barrier: an empty write *)
       end
-  | CT_DELAYEND => if delayed s then Some (with_cw s [] false) else None
+  | CT_DELAYEND => if delayed s && is_idle s then Some (cs_delayed (cs_cwbuf s []) false) else None
   | CT_RENDERBEGIN =>
-      match ph s with
-      | Idle => if errored s then None else Some (with_fifo (with_ph s (Rendering 0 0 [] 0 0 [])) (fifo s ++ [QSync; QIter]))
-      | _ => None
-      end
+      if is_idle s && negb (errored s)
+      then Some (cs_fifo (cs_ph s (Rendering 0 0 [] 0 0 [])) (fifo s ++ [QSync; QIter]))
+      else None
   | CT_RENDERSIZE wd ht =>
       match ph s with
-      | Rendering _ _ [] 0 0 [] => Some (with_ph s (Rendering wd ht [] 0 0 []))
+      | Rendering _ _ [] 0 0 [] => Some (cs_ph s (Rendering wd ht [] 0 0 []))
       | _ => None
       end
   | CT_FLUSHBAR b sh nrows rmf np =>
       match ph s, lookup b (bars s) with
       | Rendering wd ht rows n pc pushes, Some r =>
-        match br_frame r, popped s with
-        | Some fi, _ =>
+        match br_frame r with
+        | Some fi =>
           (* flush receives bars in pop order: b is the oldest popped bar not yet flushed *)
           if negb (match popped s with p0 :: _ => b =? p0 | [] => false end) then None else
           if negb ((fi_shutdown fi =? sh) && Bool.eqb (fi_rm fi) rmf && Bool.eqb (fi_nopop fi) np &&
                    (nrows =? 1 + br_xrows r)) then None else
           let '(taken, used) := take_rows (List.rev (bar_rows b r fi)) n ht in
           let r0 := set_frame r None in
-          let s0 := with_hm (upd_bar s b r0) (heap s) (hsync s) (hlen s) (hdirty s) (iterating s) (removeZ b (popped s)) in
-          let cancel_bar (s : cst) :=
-            match lookup b (bars s) with
-            | Some rb => upd_bar s b (set_st rb (set_cancelled (br_st rb)))
-            | None => s
-            end in
+          let rc := set_st r0 (set_cancelled (br_st r0)) in       (* b.cancel() *)
+          let s0 := cs_cycle_flushed (cs_popped s (tl (popped s))) (cycle_flushed s ++ [b]) in
           let fin (s : cst) (pc' : Z) (pushes' : list (Z * bool)) :=
-            Some (with_ph s (Rendering wd ht (rows ++ taken) (n + used) pc' pushes')) in
+            Some (cs_ph s (Rendering wd ht (rows ++ taken) (n + used) pc' pushes')) in
           if sh =? 1 then
-            let s1 := cancel_bar s0 in
-            match lookup b (queue s1) with
+            match lookup b (queue s0) with
             | Some qb =>
-                match lookup qb (bars s1) with
+                match lookup qb (bars s0) with
                 | Some rq =>
-                    let s2 := upd_bar (with_queue s1 (remove_key b (queue s1))) qb (set_prio rq (br_prio r)) in
-                    fin s2 pc (pushes ++ [(qb, true)])
+                    (* the successor takes the bar's priority and is pushed; the bar itself is not *)
+                    let s1 := upd_bar (upd_bar s0 b rc) qb (set_prio rq (br_prio r)) in
+                    fin (cs_retired (cs_queue s1 (remove_key b (queue s1))) (b :: retired s1)) pc (pushes ++ [(qb, true)])
                 | None => None
                 end
             | None =>
-                if pop_mode s1 && negb np then
-                  let s2 := with_popprio (upd_bar s1 b (set_prio (set_st r0 (set_cancelled (br_st r0))) (pop_prio s1))) (pop_prio s1 + 1) in
-                  fin s2 pc (pushes ++ [(b, false)])
-                else if negb rmf then fin s1 pc (pushes ++ [(b, false)])
-                else fin s1 pc pushes
+                if pop_mode s0 && negb np then
+                  fin (cs_pop_prio (upd_bar s0 b (set_prio rc (pop_prio s0))) (pop_prio s0 + 1)) pc (pushes ++ [(b, false)])
+                else if negb rmf then fin (upd_bar s0 b rc) pc (pushes ++ [(b, false)])
+                else fin (cs_retired (upd_bar s0 b rc) (b :: retired s0)) pc pushes
             end
-          else if (sh =? 2) && pop_mode s0 && negb np then fin s0 (pc + used) pushes
-          else fin s0 pc (pushes ++ [(b, false)])
-        | None, _ => None
+          else if (sh =? 2) && pop_mode s0 && negb np then
+            fin (cs_retired (upd_bar s0 b r0) (b :: retired s0)) (pc + used) pushes
+          else fin (upd_bar s0 b r0) pc (pushes ++ [(b, false)])
+        | None => None
         end
       | _, _ => None
       end
   | CT_FRAME nrows pcnt =>
       match ph s with
       | Rendering wd ht rows n pc pushes =>
-          if (n =? nrows) && (pc =? pcnt) && match popped s with [] => true | _ => false end then
+          (* the ordered iteration is over: the heap manager has taken everything sent so far *)
+          if (n =? nrows) && (pc =? pcnt) && nil_b (popped s) && negb (iterating s) && nil_b (fifo s) then
             (* rows were collected bottom-up and are written top first; then Flush(rows - popCount) *)
             let buf := cwbuf s ++ List.rev rows in
             let next := if 0 <? n - pc then [ICuu (n - pc)] else [] in
-            let s1 := with_fifo s (fifo s ++ map (fun p => QPush (fst p) (snd p)) pushes) in
-            let s2 := with_ph s1 Idle in
-            if delayed s then Some (with_cw s2 next true)
+            let s1 := cs_fifo s (fifo s ++ map (fun p => QPush (fst p) (snd p)) pushes) in
+            let s2 := cs_cwbuf (cs_ph s1 Idle) next in
+            if delayed s then Some s2
             else match buf with
-                 | [] => Some (with_cw s2 next false)              (* nothing to write: no Write call *)
-                 | _ => Some (with_cw (with_frames s2 (buf :: frames s)) next false)
+                 | [] => Some s2                               (* nothing to write: no Write call *)
+                 | _ => Some (cs_outframes s2 (buf :: outframes s))
                  end
           else None
       | _ => None
       end
   | OUT items =>
       (* must be the frame the model has just handed to the writer *)
-      match frames s with
+      match outframes s with
       | f :: _ => if items_eqb f items then Some s else None
       | [] => None
       end
-  | CT_DONE => Some (with_flags s (cancelled s) true (ended s) (errored s))
-  | CT_EXIT => if done_seen s then Some s else None
-  (* ---- heap manager ---- *)
+  | CT_DONE => if is_idle s then Some (cs_done_seen s true) else None
+  | CT_EXIT => if done_seen s && is_idle s then Some s else None
+  (* ---- heap manager goroutine: one request at a time ---- *)
   | HM_PUSH b sy hl cs cl =>
-      if (hl =? Z.of_nat (length (heap s))) && Bool.eqb cs (hsync s) && (cl =? hlen s) && negb (memZ b (heap s)) then
+      if negb (iterating s) && (hl =? Z.of_nat (length (heap s))) && Bool.eqb cs (hsync s) && (cl =? hlen s)
+         && negb (memZ b (heap s)) then
         match fifo_pop s (is_push b sy) with
-        | Some s1 => Some (with_hm s1 (b :: heap s) (hsync s || sy) (hlen s) (hdirty s) (iterating s) (popped s))
+        | Some s1 => Some (cs_hsync (cs_heap s1 (b :: heap s)) (hsync s || sy))
         | None => None
         end
       else None
   | HM_SYNC hl cs cl =>
-      if (hl =? Z.of_nat (length (heap s))) && Bool.eqb cs (hsync s) && (cl =? hlen s) then
+      if negb (iterating s) && (hl =? Z.of_nat (length (heap s))) && Bool.eqb cs (hsync s) && (cl =? hlen s) then
         match fifo_pop s (is_q 0) with
         | Some s1 =>
             (* matrices rebuilt iff sync || len != heap length; then sync := false, len := heap length *)
-            if hsync s || negb (hlen s =? hl) then Some (with_hm s1 (heap s) false hl (hdirty s) (iterating s) (popped s))
-            else Some s1
+            if hsync s || negb (hlen s =? hl) then Some (cs_hlen (cs_hsync s1 false) hl) else Some s1
         | None => None
         end
       else None
   | HM_ITERREQ haspop hl =>
-      if hl =? Z.of_nat (length (heap s)) then
+      if negb (iterating s) && (hl =? Z.of_nat (length (heap s))) then
         if haspop then
           match fifo_pop s (is_q 1) with
-          | Some s1 => Some (with_hm s1 (heap s) (hsync s) (hlen s) (hdirty s) true [])
+          | Some s1 =>
+              let s2 := cs_iter_dirty (cs_iter_heap (cs_cycle_flushed (cs_cycle_pops (cs_popped s1 []) []) []) (heap s)) (hdirty s) in
+              (* an empty heap: the ordered iteration is over at once *)
+              Some (cs_iterating s2 (negb (nil_b (heap s))))
           | None => None
           end
         else fifo_pop s (is_q 2)       (* traverseBars of an early refresh *)
       else None
   | HM_FIX b p lazy idx hl =>
+      if iterating s then None else
       match pend_fix s, fifo_pop s (is_q 2) with
       | (b', p', lazy') :: rest, Some s1 =>
           if (b =? b') && (p =? p') && Bool.eqb lazy lazy' then
-            let s2 := with_pend_fix s1 rest in
+            let s2 := cs_pend_fix s1 rest in
             (* index < 0: not in the heap, ignored *)
             if idx <? 0 then (if memZ b (heap s) then None else Some s2) else
             if negb (memZ b (heap s) || (idx =? 0)) then None else
             match lookup b (bars s2) with
-            | Some r =>
-                let s3 := upd_bar s2 b (set_prio r p) in
-                Some (with_hm s3 (heap s3) (hsync s3) (hlen s3) (hdirty s3 || lazy) (iterating s3) (popped s3))
+            | Some r => Some (cs_hdirty (upd_bar s2 b (set_prio r p)) (hdirty s2 || lazy))
             | None => None
             end
           else None
       | _, _ => None
       end
   | HM_STATE hl cs cl =>
-      if (hl =? Z.of_nat (length (heap s))) && Bool.eqb cs (hsync s) && (cl =? hlen s) && done_seen s
-         && match fifo s with [] => true | _ => false end then Some s else None
+      if negb (iterating s) && (hl =? Z.of_nat (length (heap s))) && Bool.eqb cs (hsync s) && (cl =? hlen s)
+         && done_seen s && nil_b (fifo s) then Some s else None
   | HM_END hl =>
-      if (hl =? Z.of_nat (length (heap s))) && done_seen s && match fifo s with [] => true | _ => false end
-      then Some (with_flags s (cancelled s) (done_seen s) true (errored s)) else None
+      if negb (iterating s) && (hl =? Z.of_nat (length (heap s))) && done_seen s && nil_b (fifo s)
+      then Some (cs_ended s true) else None
   | HM_POP b p =>
       match lookup b (bars s) with
       | Some r =>
           if iterating s && memZ b (heap s) && (br_prio r =? p) && (hdirty s || max_prio (bars s) (heap s) p) then
             let hp := removeZ b (heap s) in
             (* the iteration empties the heap; the pushes that follow rebuild it in order *)
-            let fin := match hp with [] => true | _ => false end in
-            Some (with_hm s hp (hsync s) (hlen s) (if fin then false else hdirty s) (negb fin) (popped s ++ [b]))
+            let fin := nil_b hp in
+            let s1 := cs_cycle_pops (cs_popped (cs_heap s hp) (popped s ++ [b])) (cycle_pops s ++ [(b, p)]) in
+            Some (cs_iterating (cs_hdirty s1 (if fin then false else hdirty s)) (negb fin))
           else None
       | None => None
       end
